@@ -502,6 +502,15 @@ def bracket_rows(t):
         if pat == sp.Tuple(op("slc", NONE_T, NONE_T, NONE_T), lv) and isinstance(val, sp.Tuple) and len(val.args) == 2:
             return val.args[0], val.args[1], lv
         return None
+    if fname(t) == "stack" and isinstance(t.args[0], sp.Tuple) and len(t.args[0].args) == 2 and all(
+            not (isinstance(a, sp.Tuple) and a.args and a.args[0] == T.Str("axis") and a.args[1] != 0) for a in t.args[1:]):
+        # two vectors stacked into the (2, n) table; a vector filled by `buf[:] = v` holds v
+        def filled(r_):
+            if fname(r_) == "store" and fname(r_.args[0]) in ("empty", "zeros") and (
+                    r_.args[1] == op("slc", NONE_T, NONE_T, NONE_T) or r_.args[1] == T.ELLIPSIS_T):
+                return r_.args[2]
+            return r_
+        return filled(t.args[0].args[0]), filled(t.args[0].args[1]), None
     if fname(t) == "store":
         base, chain = store_chain(t)
         rows = {}
